@@ -30,8 +30,10 @@ for sd in sorted(evals):
     sid = "%s-%s" % (prop, n)
     dst = os.path.join(OUT, sid)
     os.makedirs(dst, exist_ok=True)
-    for fn in ("patch.diff", "seed_demo_test.go"):
-        shutil.copy(os.path.join(sd, fn), os.path.join(dst, fn))
+    import glob
+    shutil.copy(os.path.join(sd, "patch.diff"), os.path.join(dst, "patch.diff"))
+    demo = (sorted(glob.glob(os.path.join(sd, "seed_demo*_test.go"))) or [os.path.join(sd, "seed_demo_test.go")])[0]
+    shutil.copy(demo, os.path.join(dst, "seed_demo_test.go"))
     meta = {}
     try:
         meta = json.load(open(os.path.join(sd, "meta.json")))
